@@ -88,6 +88,9 @@ func parseASEvents(s string) ([]asEvent, bool) {
 			}
 			seen[c] = true
 		}
+		if seen['z'] && (seen['x'] || seen['y'] || seen['j'] || seen['i']) {
+			return nil, false // a null config has no app that could fail and no @id
+		}
 		if a[2] != "-" {
 			if len(a[2]) < 2 || (a[2][0] != 'K' && a[2][0] != 'F') {
 				return nil, false
@@ -377,7 +380,7 @@ func parseTrace(text, dir string) []traceOp {
 			}
 			return fileOf(strings.TrimSuffix(rest[i+1:j], " (deleted)"))
 		}
-		op := traceOp{marker: -1, complete: complete, failed: failed, killed: unfinished, sys: sys}
+		op := traceOp{marker: -1, complete: complete, failed: failed, killed: unfinished || ret == "?", sys: sys}
 		switch sys {
 		case "faccessat", "faccessat2":
 			if arg(0) == pathM {
@@ -513,7 +516,7 @@ func runSegment(dir string, evs []asEvent, inject []string) segResult {
 	pathP := filepath.Join(dir, "autosave.json")
 	args := []string{"-f", "-y", "-s", "262144", "-o", tf,
 		"-P", pathP, "-P", pathP + ".tmp", "-P", filepath.Join(dir, "mark"),
-		"-e", "trace=" + straceSyscalls}
+		"-e", "trace=" + straceSyscalls, "-e", "signal=none"}
 	args = append(args, inject...)
 	args = append(args, exe, "c14child", dir, strings.Join(specs, ";"))
 	cmd := exec.Command("strace", args...)
